@@ -628,7 +628,9 @@ int main(int argc, char **argv) {
   vh::installCrashHandler(&out);
   out.rule = "instances = (capacities, demands, costs[sink][source] int or float, increaseCapacity yes/no) with total demand <= "
              "total capacity at solve(); corpus, then exhaustive tiny grids, then random (tiny for brute force, and up to 16 sinks x 300 "
-             "sources, demands to 1e9, |int cost| to INT_MAX/(8 sinks)); non-trivial = the capacity constraints were binding "
+             "sources, demands to 1e9, |int cost| to INT_MAX/(8 sinks); float costs: 13 families over the whole finite float range - zeros, ties, "
+             "dyadic, full mantissas, spreads 1e-6..1e6, distances, subnormals, any exponent, decimals/thirds, all <= 1e-8f, near FLT_MAX, "
+             "mixtures - a quarter of them with negative entries down to -nbSinks*maxVal and a few just below); non-trivial = the capacity constraints were binding "
              "(some source has units outside its cheapest sinks, so units had to be routed/moved between sinks); distinct by canonical text";
   Runner r(out, a.thorough() ? 400000 : (a.search() ? 120000 : 60000));
   long long k = 0;
